@@ -16,7 +16,7 @@ import (
 
 var c18Opts = GenOpts{MaxNodes: 4, MultiHalt: true, Langs: true, EchoInput: true, NoEndNodes: true, Separators: true, Flags: true}
 
-var c18Modes = []app.Mode{{Kind: "long"}, {Kind: "persist", Backend: "mem"}, {Kind: "persist", Backend: "mem"}, {Kind: "persist", Backend: "fs"}}
+var c18Modes = []app.Mode{{Kind: "long"}, {Kind: "persist", Backend: "mem"}, {Kind: "persist", Backend: "mem"}, {Kind: "persist", Backend: "fs"}, {Kind: "objects"}}
 
 func genC18(t *rapid.T) ModelCase {
 	a := GenApp(t, c18Opts)
@@ -76,7 +76,7 @@ func genC18(t *rapid.T) ModelCase {
 		c.UsePo = true
 		poFriendly(a)
 	}
-	c.Inputs = genGuidedHistory(t, a, 12, mode.Kind == "persist")
+	c.Inputs = genGuidedHistory(t, a, 12, mode.PerRequest())
 	return c
 }
 
@@ -171,7 +171,7 @@ func checkC18(c ModelCase) (o Outcome) {
 		o.class("resource:gettext")
 	}
 	o.Viol, o.Discard = v, discard
-	o.NonTrivial = f.langSwitches >= 1 && f.translatedRender && f.untranslatedRender && c.Mode.Kind == "persist"
+	o.NonTrivial = f.langSwitches >= 1 && f.translatedRender && f.untranslatedRender && c.Mode.PerRequest()
 	if f.langSwitches > 0 {
 		o.class("language-switched")
 	}
